@@ -8,7 +8,7 @@ from harness.props import C02 as c02
 from harness.props import xmicommon as xc
 
 ID = "C16"
-COQ_TARGETS = ["JsonDoc.vo", "Json.vo", "JsonProofs.vo", "CorrC02.vo", "Convert.vo", "ConvertProofs.vo", "CorrC16.vo",
+COQ_TARGETS = ["JsonDoc.vo", "Json.vo", "JsonProofs.vo", "JsonProofs2.vo", "JsonLoadProofs.vo", "JsonLex.vo", "CorrC02.vo", "Convert.vo", "ConvertProofs.vo", "CorrC16.vo",
                "Props/C16.vo"]
 PROPS_FILE = "Props/C16.v"
 CORR_IMPORTS = "Base Heap Schema Canon Lex JsonDoc Json XmiDoc Convert CorrC16"
